@@ -1,6 +1,7 @@
 import BigDec.Driver.C01
 import BigDec.Driver.C02
 import BigDec.Driver.C03
+import BigDec.Driver.C05
 import BigDec.Driver.C06
 import BigDec.Driver.C07
 import BigDec.Driver.C08
@@ -18,6 +19,7 @@ def dispatch (prop op : String) (args : List String) (impl : String) : Verdict :
   | "C01" => Driver.C01.handle op args impl
   | "C02" => Driver.C02.handle op args impl
   | "C03" => Driver.C03.handle op args impl
+  | "C05" => Driver.C05.handle op args impl
   | "C06" => Driver.C06.handle op args impl
   | "C07" => Driver.C07.handle op args impl
   | "C08" => Driver.C08.handle op args impl
